@@ -141,7 +141,7 @@ theorem le_two_pow_bitsAux (fuel n w : Nat) (h : n ≤ w + fuel) : n ≤ 2 ^ bit
     · assumption
     · exact ih (w + 1) (by omega)
 
-theorem le_two_pow_bitsFor (n : Nat) (h : 2 ≤ n) : n ≤ 2 ^ bitsFor n := by
+theorem le_two_pow_bitsFor (n : Nat) (_h : 2 ≤ n) : n ≤ 2 ^ bitsFor n := by
   simp only [bitsFor]
   split
   · omega
@@ -175,8 +175,8 @@ def WInv (c : Config) (p : Phase) (a : Acct) (r : Regs) (W com : List Nat) (acc 
   | .rx t pid sent now _ => RunInv c a r W com acc t pid sent (sent.length + now.toList.length + 1)
   | .finByte t pid sent now _ => RunInv c a r W com acc t pid sent (sent.length + now.toList.length) ∧
       (now = none → sent = [])
-  | .finStrobe t pid bytes _ responded =>
-    t.wf = true ∧ bytes.length ≤ c.mps ∧
+  | .finStrobe t pid bytes ok responded =>
+    t.wf = true ∧ bytes.length ≤ c.mps ∧ (responded = true → ok = true) ∧
     (if t.targets c then
       (bytes = [] → r.rxCnt = 0 ∧ r.overflow = false ∧ r.packetHasData = false) ∧
       (if responded then
@@ -298,6 +298,24 @@ theorem winv_step_rx {c : Config} {t : Tok} {pid : Nat} {sent : List Nat} {now :
       cases hK : okayP c t pid a.toggle <;> cases full <;> cases hO : r.overflow <;> simp_all <;>
       exact ⟨by rw [body_snoc, Bool.and_comm], rxCnt_no_wrap _ _ (by omega)⟩
 
+/-- the write of a packet's final byte completes its entries; `last` is set iff the packet is short -/
+theorem last_entry (f : Bool) (sent : List Nat) (x mps : Nat) (h : sent.length + 1 ≤ mps) :
+    List.map dec (body f sent) ++ [dec (entry x (!sent.length == mps - 1) (sent.isEmpty && f))]
+        = marks f (decide (sent.length + 1 < mps)) (sent ++ [x]) ∧
+      (sent.length == mps - 1) = (sent.length + 1 == mps) := by
+  have e1 : (sent.length == mps - 1) = (sent.length + 1 == mps) := by
+    rw [Bool.eq_iff_iff]; simp only [beq_iff_eq]; omega
+  have e2 : (!sent.length == mps - 1) = decide (sent.length + 1 < mps) := by
+    rw [e1, Bool.eq_iff_iff]; simp only [Bool.not_eq_true', beq_eq_false_iff_ne, decide_eq_true_eq]; omega
+  refine ⟨?_, e1⟩
+  rw [e2, ← marks_body, List.map_append, Bool.and_comm]
+  rfl
+
+theorem targets_not_ping {c : Config} {t : Tok} (hwf : t.wf = true) (hT : t.targets c = true) :
+    t.isPing = false ∧ (t.ep == c.epNum) = true := by
+  simp only [Tok.wf, Tok.targets] at hwf hT
+  cases h1 : t.isOut <;> cases h2 : t.isPing <;> simp_all
+
 theorem winv_step_finByte {c : Config} {t : Tok} {pid : Nat} {sent : List Nat} {now : Option Nat} {ok : Bool}
     {s : WState} {o : BoundaryDetector.Out} {full : Bool} {space : Nat}
     {i : In} {p' : Phase} (hmps : 1 ≤ c.mps) (h : s.Inv c (.finByte t pid sent now ok))
@@ -311,14 +329,26 @@ theorem winv_step_finByte {c : Config} {t : Tok} {pid : Nat} {sent : List Nat} {
   obtain ⟨htok, hpid, hnew, hclr⟩ := stable_inv hst
   simp only at htg hta hcom hphd hovf hno hok hlen
   rw [htg] at hphd hovf hno hok
-  cases now with
-  | none =>
-    simp only at hvn
-    have hz := hz rfl
-    subst hz
-    simp [WState.Inv, WState.next, WInv, RunInv, regsNext, combG_tok htok hpid, wNext, wctl, Acct.step, Phase.answered,
-        hvn, hco, hio, hnew, hta, hcom, htg, hwf, okayP_clr hclr, pktEntries, marks]
-    sorry
-  | some x => sorry
+  cases hT : t.targets c
+  · -- a transaction for somebody else
+    cases now <;>
+    simp_all [WState.Inv, WState.next, WInv, RunInv, regsNext, combG_tok htok hpid, wNext, wctl, Acct.step, Phase.answered,
+        okayP, View]
+  · obtain ⟨hping, hep⟩ := targets_not_ping hwf hT
+    have hc : i.clearHalt = false := by simpa [hT] using hclr
+    cases now with
+    | none =>
+      simp only at hvn
+      have hz := hz rfl
+      subst hz
+      by_cases hM : pid = tn a.toggle <;> cases hR : i.rxReady <;> cases hO : r.overflow <;>
+      simp_all [WState.Inv, WState.next, WInv, RunInv, regsNext, combG_tok htok hpid, wNext, wctl, Acct.step, Phase.answered,
+        okayP, hsG, pktEntries, marks, body] <;> omega
+    | some x =>
+      obtain ⟨hn, hvl, hpl, hfi, hla⟩ := hvn
+      by_cases hM : pid = tn a.toggle <;> cases hR : i.rxReady <;> cases full <;> cases hO : r.overflow <;>
+      simp_all [WState.Inv, WState.next, WInv, RunInv, regsNext, combG_tok htok hpid, wNext, wctl, Acct.step, Phase.answered,
+        okayP, hsG, pktEntries] <;>
+      exact last_entry _ _ _ _ hlen
 
 end LunaVerif.StreamOutEndpoint
